@@ -158,7 +158,23 @@ func (s *sim) twin(kind string, order []int) (jsonapi.Collection, *core.Panic) {
 		}
 
 		for _, i := range order {
-			col.Add(s.m.resSpec(ts, s.m.recs[i]).Clone().Wrapped())
+			rs := s.m.resSpec(ts, s.m.recs[i]).Clone()
+
+			if core.HashString(rs.ID)%4 == 1 {
+				// created empty, added, and only then given its ID and values through the
+				// caller's handle (a collection of wrappers holds the wrappers themselves)
+				w := world.NewResSpec(ts).Wrapped()
+				col.Add(w)
+				w.SetID(rs.ID)
+
+				for _, f := range ts.Fields() {
+					w.Set(f, world.CloneValue(rs.Vals[f]))
+				}
+
+				continue
+			}
+
+			col.Add(rs.Wrapped())
 		}
 	})
 
@@ -343,9 +359,13 @@ func (s *sim) rangeQuery() *core.Violation {
 
 	var lastRes jsonapi.Collection
 
+	// one filter object for all the calls of this query: a caller builds its filter
+	// once and pages through the result with it
+	lib := toFilter(fs)
+
 	call := func(c jsonapi.Collection, sz, nm uint) (page []string, isNil bool, p *core.Panic) {
 		p = core.Call(func() {
-			res := jsonapi.Range(c, append([]string{}, ids...), toFilter(fs), append([]string{}, rules...), sz, nm)
+			res := jsonapi.Range(c, append([]string{}, ids...), lib, append([]string{}, rules...), sz, nm)
 			if res == nil {
 				isNil = true
 				return
@@ -521,6 +541,104 @@ func (s *sim) rangeQuery() *core.Violation {
 
 		if strings.Join(pp, "\x00") != strings.Join(page, "\x00") {
 			return viol(p09, "order-independent-with-id", "Range", cls, "%s returned %q, and %q for the same records in order %v", q, page, pp, perm)
+		}
+	}
+
+	// The caller re-targets the filter object it already has: every "in" list is
+	// replaced by another list of the same length (the next batch of IDs), and the
+	// same object is used for another query on the same collection.
+	if fs != nil && lib != nil && t.Bool(1, 3) {
+		changed := 0
+
+		var walk func(f *model.FilterSpec, l *jsonapi.Filter)
+
+		walk = func(f *model.FilterSpec, l *jsonapi.Filter) {
+			if f.Op == "and" || f.Op == "or" {
+				kids, _ := l.Val.([]*jsonapi.Filter)
+				for i, k := range f.Kids {
+					if i < len(kids) {
+						walk(k, kids[i])
+					}
+				}
+
+				return
+			}
+
+			old, ok := f.Val.([]string)
+			if f.Op != "in" || !ok {
+				return
+			}
+
+			neu := make([]string, len(old))
+
+			for i := range neu {
+				neu[i] = fmt.Sprintf("other%d", i)
+
+				if len(s.m.recs) > 0 && t.Bool(2, 3) {
+					if v := world.Deref(s.m.recs[t.Draw(len(s.m.recs))].Vals[f.Field]); v != nil {
+						neu[i] = fmt.Sprint(v)
+					}
+				}
+			}
+
+			f.Val = neu
+			l.Val = append([]string{}, neu...)
+			changed++
+		}
+
+		walk(fs, lib)
+
+		if changed > 0 {
+			s.st.Inc("probe:filter-object-retargeted-and-reused")
+
+			var matches2 []*model.Rec
+
+			for _, r := range s.m.recs {
+				sel := len(ids) == 0
+
+				for _, id := range ids {
+					if id == r.ID {
+						sel = true
+					}
+				}
+
+				if sel && fs.Allowed(r) {
+					matches2 = append(matches2, r)
+				}
+			}
+
+			q2 := fmt.Sprintf("%s, then the same filter object re-targeted to %s", q, fs.Describe())
+
+			page2, _, p := call(col, size, num)
+			if p != nil {
+				return viol(p09, "no-panic", p.Func, cls+":"+p.Class, "%s panicked: %s", q2, p.Value)
+			}
+
+			t.Logf("%s -> %q (reference matches %d)", q2, page2, len(matches2))
+
+			if msg := model.CheckPage(matches2, rules, uint64(num)*uint64(size), uint64(size), page2); msg != "" {
+				// (rules on uint64-family attributes: the known finding concerns the order only;
+				// membership is what a stale filter changes)
+				got := append([]string{}, page2...)
+				sort.Strings(got)
+
+				okMember := true
+
+				in2 := map[string]bool{}
+				for _, m := range matches2 {
+					in2[m.ID] = true
+				}
+
+				for _, id := range got {
+					if !in2[id] {
+						okMember = false
+					}
+				}
+
+				if !okMember || (uint64(num)*uint64(size) == 0 && uint64(size) >= uint64(len(matches2)) && len(got) != len(matches2)) {
+					return viol(p09, "page-equals-reference", "Range", cls+":filter-object-reused", "%s returned %q: %s\n    store: %s", q2, page2, msg, s.m.describe())
+				}
+			}
 		}
 	}
 
